@@ -7,6 +7,14 @@ def run(report, tier):
     b = 1 if tier == "quick" else 2
     plan = [(P.U1(), 2 if tier == "quick" else 3, 0, None), (P.P5(), b, 0, None), (P.P6(), b, 0, None),
             (Config("U2", kind="factory", quota=1, workers=2, until_all_ready=True, calls=[("imap", "list", 2, 1)]), b, 0, None)]
+    # finite quota in a plain FunctorPool (no replacement): two workers, quota 1, two chunks
+    plan.append((Config("PQ", kind="functor", quota=1, workers=2, calls=[("imap", "list", 2, 1)]), b + 1, 0, None))
+    plan.append((Config("PQ2", kind="functor", quota=2, workers=1, calls=[("imap_unordered", "list", 2, 1)]), b + 1, 0, None))
+    # until_all_ready() before every call and after the last one, with replacements in between
+    plan.append((Config("U3", kind="factory", quota=1, workers=1, until_all_ready="each",
+                        calls=[("imap", "list", 1, 1), ("imap", "list", 1, 1)]), b + 1, 0, None))
+    plan.append((Config("U4", kind="factory", quota=1, workers=2, until_all_ready="each",
+                        calls=[("imap_unordered", "list", 2, 1)]), b, 0, None))
     # faults: begin() raises in worker w; the functor raises at the j-th item
     for w in (0, 1):
         plan.append((Config("FB%d" % w, workers=2, until_all_ready=False, fault=("begin", w), family="FB",
